@@ -405,6 +405,16 @@ def R6_swap_growth_handoff(run):
     if ok:
         ub, cb, sb, fb = upd[0][0], cross[0][0], step[0][0], fees[0][0]
         ok = cfg.dominates(sw, sb, fb) and cfg.dominates(sw, fb, ub) and cfg.dominates(sw, ub, cb) and cb in cfg.reach(sw, ub, cut_blocks=[sb])
+    if ok:
+        # the value handed to the crossing is *read* after the update too (a pair captured before calculate_fees would be one step stale)
+        from rules.common import var_read_sites
+        pvc = prov_of(sw, {}, cut=True)
+        t_ = sw.blocks[cb]["t"]
+        sites = set()
+        for a_ in t_["a"][3:5]:
+            sites |= var_read_sites(sw, pvc, a_, cb, len(sw.blocks[cb]["s"]), var)
+        usi = max([d_[1] for d_ in pvc.defs.get(var, []) if d_[0] == ub and d_[2] is None] or [-1])
+        ok = bool(sites) and all((b_ == ub and s_ > usi) or (b_ != ub and cfg.dominates(sw, ub, b_) and b_ in cfg.reach(sw, ub, cut_blocks=[sb])) for (b_, s_) in sites)
     run.check("R6", "growth-booked-before-crossing", ok, "in one loop iteration the order must be compute_swap -> calculate_fees -> running growth := its result -> tick crossing; "
               "otherwise a tick reached by a step is flipped against a growth that lacks that step's own fee", loc=sw.loc(), detail="step fee is in the running growth before the crossing of the same iteration")
     # next_tick_cross_update receives them unchanged
